@@ -1693,3 +1693,149 @@ func vgLocalEnumerate(maxRefs int) []*vgLocalSpec {
 	}
 	return out
 }
+
+// ---------------------------------------------------------------------------------------------
+// fourth family: two distinct interfaces whose printed form is identical
+//
+// variant 0 (generic interfaces, same-named type parameter, possibly different constraints):
+//
+//	type i1[T C1] interface { m(T) | m() T }      C1, C2 from {~int, ~string, any}
+//	type i2[T|U C2] interface { same method }
+//	type S struct{}; func (r S|*S) m(x P) | m() P         P from {int, string}
+//	[var _ ik[P] = S{}]                                   explicit instantiation of the first interface that admits P
+//
+// variant 1 (interfaces that mention same-named local types of different functions):
+//
+//	func F1() { type loc B1; type li interface{ m(loc) }; type t struct{ li }; var _ li = t{} | _ = t{} }
+//	func F2() { type loc|loc2 B2; type li interface{ m(loc) }; [the same t and its use] }
+//
+// An unexported method (variant 0) or embedded field (variant 1) is alive only through one of the
+// two interfaces. C17 lays the declarations out in every order; C07 applies its two oracles.
+
+type vgSPSpec struct {
+	Variant  int  `json:"v"`
+	C1       int  `json:"c1"`
+	C2       int  `json:"c2"`
+	SameName bool `json:"same,omitempty"`
+	Shape    int  `json:"shape,omitempty"` // 0 m(T), 1 m() T
+	Param    int  `json:"p,omitempty"`
+	PtrRecv  bool `json:"ptr,omitempty"`
+	Assign   bool `json:"assign,omitempty"`
+	Both     bool `json:"both,omitempty"` // variant 1: F2 also declares and uses t
+	Conv     bool `json:"conv,omitempty"` // variant 1: var _ li = t{} instead of _ = t{}
+}
+
+var vgSPConstraints = [...]string{"~int", "~string", "any"}
+var vgSPBasics = [...]string{"int", "string"}
+
+func (s *vgSPSpec) Key() string {
+	b2 := func(b bool, t string) string {
+		if b {
+			return "," + t
+		}
+		return ""
+	}
+	if s.Variant == 0 {
+		return fmt.Sprintf("SP:generic,%s/%s,shape%d,%s%s%s%s", vgSPConstraints[s.C1], vgSPConstraints[s.C2], s.Shape, vgSPBasics[s.Param],
+			b2(s.SameName, "samename"), b2(s.PtrRecv, "ptr"), b2(s.Assign, "assign"))
+	}
+	return fmt.Sprintf("SP:local,%s/%s%s%s%s", vgSPBasics[s.C1], vgSPBasics[s.C2], b2(s.SameName, "samename"), b2(s.Both, "both"), b2(s.Conv, "conv"))
+}
+
+func (s *vgSPSpec) admits(c, p int) bool { return c == 2 || c == p }
+
+func (s *vgSPSpec) Decls() []vgDecl {
+	var out []vgDecl
+	add := func(src string) { out = append(out, vgDecl{Obj: len(out), Src: src}) }
+	if s.Variant == 0 {
+		meth := func(tp string) string {
+			if s.Shape == 0 {
+				return "m(" + tp + ")"
+			}
+			return "m() " + tp
+		}
+		tp2 := "U"
+		if s.SameName {
+			tp2 = "T"
+		}
+		add("type i1[T " + vgSPConstraints[s.C1] + "] interface {\n\t" + meth("T") + "\n}")
+		add("type i2[" + tp2 + " " + vgSPConstraints[s.C2] + "] interface {\n\t" + meth(tp2) + "\n}")
+		add("type S struct {\n}")
+		recv := "r S"
+		if s.PtrRecv {
+			recv = "r *S"
+		}
+		p := vgSPBasics[s.Param]
+		if s.Shape == 0 {
+			add("func (" + recv + ") m(x " + p + ") {\n}")
+		} else {
+			add("func (" + recv + ") m() " + p + " {\n\treturn *new(" + p + ")\n}")
+		}
+		if s.Assign {
+			k := "i1"
+			if !s.admits(s.C1, s.Param) {
+				k = "i2"
+			}
+			val := "S{}"
+			if s.PtrRecv {
+				val = "&S{}"
+			}
+			add("var _ " + k + "[" + p + "] = " + val)
+		}
+		return out
+	}
+	body := func(loc, base string, withT bool) string {
+		var b strings.Builder
+		b.WriteString("\ttype " + loc + " " + base + "\n\ttype li interface {\n\t\tm(" + loc + ")\n\t}\n")
+		if withT {
+			b.WriteString("\ttype t struct {\n\t\tli\n\t}\n")
+			if s.Conv {
+				b.WriteString("\tvar _ li = t{}\n")
+			} else {
+				b.WriteString("\t_ = t{}\n")
+			}
+		}
+		return b.String()
+	}
+	loc2 := "loc2"
+	if s.SameName {
+		loc2 = "loc"
+	}
+	add("func F1() {\n" + body("loc", vgSPBasics[s.C1], true) + "}")
+	add("func F2() {\n" + body(loc2, vgSPBasics[s.C2], s.Both) + "}")
+	return out
+}
+
+func vgSPEnumerate() []*vgSPSpec {
+	var out []*vgSPSpec
+	bools := []bool{false, true}
+	for c1 := 0; c1 < 3; c1++ {
+		for c2 := c1; c2 < 3; c2++ {
+			for _, same := range bools {
+				for shape := 0; shape < 2; shape++ {
+					for p := 0; p < 2; p++ {
+						for _, ptr := range bools {
+							out = append(out, &vgSPSpec{C1: c1, C2: c2, SameName: same, Shape: shape, Param: p, PtrRecv: ptr})
+						}
+						sp := &vgSPSpec{C1: c1, C2: c2, SameName: same, Shape: shape, Param: p, Assign: true}
+						if shape == 0 && (sp.admits(c1, p) || sp.admits(c2, p)) {
+							out = append(out, sp)
+						}
+					}
+				}
+			}
+		}
+	}
+	for c1 := 0; c1 < 2; c1++ {
+		for c2 := c1; c2 < 2; c2++ {
+			for _, same := range bools {
+				for _, both := range bools {
+					for _, conv := range bools {
+						out = append(out, &vgSPSpec{Variant: 1, C1: c1, C2: c2, SameName: same, Both: both, Conv: conv})
+					}
+				}
+			}
+		}
+	}
+	return out
+}
